@@ -568,9 +568,9 @@ def rule_r9(F, rep):
     delim_l = [l for l in range(2, body.argc + 1) if body.local_ty(l)["s"] == "u8"]
     if not delim_l:
         raise AnchorMissing("lex_quoted_string: delimiter parameter")
+    # the code-unit reads: whatever is called (a local closure, a method, a free function) and answers Option<u16>
     unit_calls = [bb for bb, t in body.calls()
-                  if (callee_name(t) or "").startswith(fn.q + "::{closure#") and "t" in t["dst"]
-                  and body.ty(t["dst"]["t"])["s"].endswith("Option<u16>")]
+                  if "t" in t["dst"] and body.ty(t["dst"]["t"])["s"].endswith("Option<u16>") and t["f"].get("rlocal")]
     if len(unit_calls) < 2:
         raise AnchorMissing("lex_quoted_string: the two code-unit reads of a \\u escape (found %d)" % len(unit_calls))
     n = 0
@@ -590,7 +590,7 @@ def rule_r9(F, rep):
                     return 0 if isinstance(b, int) else None
                 if nme == "<%s>::eat_slice" % LEXER:
                     return follows
-                if nme.startswith(fn.q + "::{closure#") and bb in unit_calls:
+                if bb in unit_calls and not isinstance(bb, kwalk.FrameBB):
                     k = env.get("#units", 0)
                     env["#units"] = k + 1
                     dst = w.norm(env, t["dst"])
@@ -601,7 +601,7 @@ def rule_r9(F, rep):
             def on_term(w, bb, t, env):
                 if t["k"] == "call":
                     nme = callee_name(t) or ""
-                    if nme.startswith(fn.q + "::{closure#") and bb in unit_calls:
+                    if bb in unit_calls and not isinstance(bb, kwalk.FrameBB):
                         return ("unit", env.get("#units", 0))
                     if nme == "<char>::from_u32":
                         return ("single",)
@@ -871,14 +871,14 @@ def rule_r8(F, rep):
 
 
 def run(F, rep, tier):
-    rule_r3(F, rep)
-    rule_r2(F, rep)
-    rule_r1(F, rep)
-    rule_r4(F, rep)
-    rule_r5(F, rep)
-    rule_r6(F, rep)
-    rule_r7(F, rep)
-    rule_r8(F, rep)
-    rule_r9(F, rep)
+    rep.attempt(rule_r3, F, rep)
+    rep.attempt(rule_r2, F, rep)
+    rep.attempt(rule_r1, F, rep)
+    rep.attempt(rule_r4, F, rep)
+    rep.attempt(rule_r5, F, rep)
+    rep.attempt(rule_r6, F, rep)
+    rep.attempt(rule_r7, F, rep)
+    rep.attempt(rule_r8, F, rep)
+    rep.attempt(rule_r9, F, rep)
     rep.assume("text-block indentation stripping, number token values and operator maximal munch are behavioural and not decided")
     return EXPLANATION
